@@ -16,7 +16,20 @@ FIRSTS = "b+m-"
 SHAPEWORDS = ["UDJLHFVZ", "LHFUDJZV", "JZUVLDHF"]
 # words with value-equal neighbours: an exact re-delivery of a candle must be merged (volume counted twice), not dropped
 REPEATWORDS = ["UUDDJJLL", "UUUUUUUU", "UDDDJJJU"]
-HOSTS = ["cm", "ind", "hexm", "hexd", "cm-spelling", "ind-spelling"]  # *-spelling: lower-case string / TimeFrame enum member
+HOSTS = ["cm", "ind", "hexm", "hexd", "cm-spelling", "ind-spelling", "hexfm", "hexm2"]  # *-spelling: lower-case string / TimeFrame enum member
+# hexfm: a Hexital with its own finer timeframe (a divisor of tf, same fill option) and a member on tf; right-closed buckets nest,
+# so the member's candles must still be the reference resampling of the raw stream (fill candles of the fine series are not data)
+# hexm2: two members on distinct timeframes (tf and its double) registered in one call
+
+
+def finer(tf):
+    s = A.tf_seconds(tf)
+    d = next((s // q for q in (2, 3, 5, 7) if s % q == 0 and s // q >= 1), None)
+    if d is None:
+        return None
+    for unit, sec in (("D", 86400), ("H", 3600), ("T", 60), ("S", 1)):
+        if d % sec == 0:
+            return f"{unit}{d // sec}"
 
 
 def spaces(tier):
@@ -57,6 +70,14 @@ def execute(raw, tf, fill, host, preload, comp, extra):
         mgr = lambda: obj.candle_manager
     elif host == "hexm":
         obj = Hexital("x", first, [SMA(period=2, timeframe=tf)], timeframe_fill=fill)
+        get = lambda: obj.candles(tf)
+        mgr = lambda: obj._candles[tf]
+    elif host == "hexm2":
+        obj = Hexital("x", first, [SMA(period=2, timeframe=tf), SMA(period=2, timeframe=f"{tf[0]}{2 * int(tf[1:])}")], timeframe_fill=fill)
+        get = lambda: obj.candles(tf)
+        mgr = lambda: obj._candles[tf]
+    elif host == "hexfm":
+        obj = Hexital("x", first, [SMA(period=2, timeframe=tf)], timeframe=finer(tf), timeframe_fill=fill)
         get = lambda: obj.candles(tf)
         mgr = lambda: obj._candles[tf]
     else:
@@ -106,7 +127,7 @@ def explore(item):
             for host in HOSTS:
                 for (k, comp) in schedules(n):
                     for extra in sp["extras"]:
-                        if extra and host in ("hexm", "hexd") and False:
+                        if host == "hexfm" and finer(tf) is None:
                             continue
                         case = {"tf": tf, "fill": fill, "host": host, "raw": raw, "preload": k, "comp": comp, "extra": extra}
                         try:
@@ -185,7 +206,7 @@ def main(prop, tier):
                 items.append((prop, tier, tf, n, first, GAPS, 0, _dt(1969, 12, 31, 23, 56) if tf[0] in "ST" else _dt(1969, 12, 27, 20, 0)))
     rep = merge_all(pmap(explore, items))
     rule = ("every gap word over {dup,1s,tf/2,tf-1,tf,tf+1,2tf,2.5tf,5tf+1}^(n-1) x first-candle offset {on boundary,+1s,mid,-1s} "
-            "x timeframe x host {CandleManager, Indicator, Hexital member timeframe, Hexital default timeframe} x preload k x every "
+            "x timeframe x host {CandleManager, Indicator, Hexital member timeframe, Hexital default timeframe, Hexital on a finer default timeframe with a member on tf, Hexital with members on tf and 2tf} x preload k x every "
             "composition of the rest into appends x 0..2 extra collapse passes after each step, compared with the reference resampler; "
             "non-trivial = distinct case in which at least two candles share a bucket (or a fill candle is inserted) and the comparison ran")
     bounds = {"timeframes": sp["tfs"], "n": sp["n"], "deep_timeframes": sp["deep_tfs"], "deep_n": sp["deep_n"],
